@@ -1,6 +1,14 @@
 import PsyVerif.Model.MiniFIO
 import PsyVerif.Model.DepTools
+import PsyVerif.Model.DepSig
 open Proto MiniF
+
+/-- `((id base member ...) ...)` -/
+def sigTab (s : Sexp) : C08.SigTab :=
+  s.items.filterMap fun e =>
+    match e.natList with
+    | x :: b :: path => some (x, ⟨b, path⟩)
+    | _ => none
 
 def pairs (s : Sexp) : List (Nat × Nat) :=
   s.items.filterMap fun e =>
@@ -21,6 +29,7 @@ def showEv (e : C08.Ev) : String :=
 * `(par <loop> ((id cand) ...))` → `(<parallelisable> <inFragment> ((code var) ...) (<privatisable scalars>))`
 * `(trace <prefix stmt> <loop> <cap>)` → per-iteration event lists `((w x i j) ...)` of the loop executed
   sequentially from the store the prefix produces out of the all-zero store
+* `(sigok ((id base member ...) ...) <loop>)` → `1` iff `C08.sigTabOk` and every variable of the loop is listed
 * `(fresh (<taken>))` → candidate chosen by the fixed `d_<var>` loop -/
 def handle (s : Sexp) : String :=
   match s with
@@ -62,6 +71,14 @@ def handle (s : Sexp) : String :=
     | some p, some (.loop v lo hi st body) =>
       traces v body lo hi st (exec p (storeOf [])) ((cap.nat?).getD 16)
     | _, _ => "bad-loop"
+  | .list [.atom "sigok", tab, l] =>
+    -- the signature table is a bijection without prefix overlaps and covers every variable of the loop
+    match parseStmt l with
+    | some (.loop v lo hi st body) =>
+      let t := sigTab tab
+      let vars := v :: (C08.evars lo ++ C08.evars hi ++ C08.evars st ++ C08.rvars body ++ C08.wvars body)
+      if C08.sigTabOk t && C08.sigCovers t vars then "1" else "0"
+    | _ => "bad-loop"
   | .list [.atom "fresh", t] =>
     match C08.freshD t.natList with
     | some n => toString n
